@@ -125,6 +125,9 @@ func verifC03Client(flow bool) *verifC03 {
 	h.reduced = flow && nd.Param("cross", 0) == 0
 	if h.reduced && !h.pool {
 		h.scn = nd.Choice("scenario", 5)
+	} else if h.reduced {
+		// candidate pool: the plain scenario and the storage-fault one (realisable witnesses of the error redirects)
+		h.scn = []int{0, 3}[nd.Choice("scenario.pool", 2)]
 	}
 	withGlobs := false
 	if h.reduced {
